@@ -133,6 +133,13 @@ func (m *ModuleAuthJWT) validateToken(token string, rule *AuthJWTRule) error {
 			continue
 		}
 
+		// jwt-go treats a numeric "exp" below 1 as "not set"; such a token expired in 1970.
+		if claims, ok := parsedToken.Claims.(jwt.MapClaims); ok {
+			if exp, ok := claims["exp"].(float64); ok && exp < 1 {
+				continue
+			}
+		}
+
 		// Both signature and time based claims "exp, iat, nbf" are valid.
 		if parsedToken.Valid && parsedToken.Claims.Valid() == nil {
 			return nil
